@@ -238,6 +238,10 @@ func NewWorld(e *core.Env, ncfg simnet.Cfg, faults []simnet.Fault, cfg *ServerCf
 		}))
 	}
 	if cfg.Static {
+		if cfg.StreamWindow <= 0 && cfg.ConnWindow <= 0 {
+			// default sizes, but without the BDP estimator
+			sopts = append(sopts, grpc.StaticStreamWindowSize(65535))
+		}
 		if cfg.StreamWindow > 0 {
 			sopts = append(sopts, grpc.StaticStreamWindowSize(cfg.StreamWindow))
 		}
